@@ -58,7 +58,10 @@ def main():
         out["confirmed"] = confirmed
         for p in [prop] + extra:
             t0 = time.time()
-            r = sh("%s/check %s --tier %s" % (HOME, p, tier), env=dict(os.environ, VERIF_REPO=wt))
+            scratch = wt + "_out"
+            r = sh("%s/check %s --tier %s" % (HOME, p, tier),
+                   env=dict(os.environ, VERIF_REPO=wt, VERIF_OUT=scratch, VERIF_EVIDENCE=scratch + "/evidence"))
+            shutil.rmtree(scratch, ignore_errors=True)
             sigs = [ln.strip() for ln in r.stdout.splitlines() if ln.strip().startswith("signature:")]
             out["ran"].append({"check": "./check %s --tier %s" % (p, tier), "exit": r.returncode,
                                "violations": sum(1 for ln in r.stdout.splitlines() if ln.startswith("VIOLATION")),
@@ -86,7 +89,6 @@ def main():
         print(json.dumps(out, indent=1))
     finally:
         sh("git -C /repo worktree remove --force %s" % wt)
-        sh("cd %s && git checkout -q -- evidence" % HOME)
     return 0
 
 
